@@ -410,7 +410,10 @@ func main() {
 			}
 			switch recvName(fd) + fd.Name.Name {
 			case "dispatch.Call", "dispatch.Notify", "dispatch.handleCancel", "callRequest.Reply", "callCompressedRequest.Reply",
-				"callRequest.Serve", "callCompressedRequest.Serve", "framedMsgpackEncoder.compressData",
+				"callRequest.Serve", "callCompressedRequest.Serve", "notifyRequest.Serve", "framedMsgpackEncoder.compressData",
+				"receiveHandler.handleReceiveDispatch", "receiveHandler.receiveResponse", "receiveHandler.receiveCancel",
+				"rpcCallMessage.DecodeMessage", "rpcCallCompressedMessage.DecodeMessage", "rpcNotifyMessage.DecodeMessage",
+				"rpcResponseMessage.DecodeMessage", "rpcCancelMessage.DecodeMessage", "Client.call", "Client.Notify",
 				"framedMsgpackEncoder.encodeAndWriteInternal", "framedMsgpackEncoder.EncodeAndWriteAsync":
 				// value hand-overs between goroutine-local steps (compress, encode, hand off) must be interleavable
 				c.stmtYield = true
